@@ -72,6 +72,16 @@ def shard_fetch(lo, hi, seed):
     return acc
 
 
+# decode must depend on nothing but the word (and the carry flag / IT position where the architecture says so) ALSO when the word is decoded by a
+# running processor: the same word executed twice by one instance - at another address, and again at the same address (a loop) - with different
+# flags / IT state in between; every step compared with the reference (e1prop.shard_repeat)
+from vf.props import e1prop as _e1p  # noqa: E402
+from vf.ref import step as _rstep  # noqa: E402,F401
+from vf.ref.core import REG as _REG  # noqa: E402
+PLAN_REPEAT = _e1p.Plan('C07', sorted(n for n in _REG if n in _e1p.ROWS and _e1p.ROWS[n][0] in ('t16', 't32')), cfgs=('v6', 'v7', 'v5'),
+                        case_kw=lambda rng, row: {'mpu': False, 'mmu': False, 'e': 0})
+
+
 def run(ctx):
     ctx.rule = ('16-bit: all 65 536 halfwords are decoded and compared with the 16-bit reference table (vf/ref/enc_t16.py) - exhaustive. '
                 '32-bit: joint path enumeration of thumb_instruction_set_encoding_32_bit.decode_instruction with vf/ref/enc_t32.py; witness '
@@ -91,6 +101,7 @@ def run(ctx):
     tasks += [(chk.corner_shard, ('vf.props.c07:SPEC32', i, 16, ctx.shard_seed(600 + i), ctx.n(4, 40))) for i in range(16)]
     for k, cn in enumerate(('v5', 'v7', 'v4')):
         tasks += [(chk.corner_shard, ('vf.props.c07:SPEC32', i, 8, ctx.shard_seed(800 + 20 * k + i), ctx.n(2, 20), cn)) for i in range(8)]
+    tasks += [(_e1p.shard_repeat, ('vf.props.c07:PLAN_REPEAT', ctx.shard_seed(900 + i), ctx.n(150, 3000))) for i in range(8)]
     ctx.pmap(_dispatch, tasks)
     ctx.acc.exhaustive = True
     ctx.acc.extra['exhaustive_part'] = 'all 16-bit halfwords; 32-bit class selection via the joint region partition; fetch-length rule over all first halfwords'
@@ -101,6 +112,8 @@ def _dispatch(fn, args):
 
 
 def replay(case, bucket=None):
+    if 'poke' in case:
+        return _e1p.replay_multi(case)
     if case.get('kind') == 'history':
         from vf.props import c06
         return chk.replay_history(SPEC32, c06.SPEC, case['word'])
